@@ -155,10 +155,11 @@ fn m_insert_new_flow_skips_zero_and_used() {
 #[cfg_attr(kani, kani::unwind(7))]
 #[cfg_attr(verif_replay, test)]
 fn m_open_accepted() {
-    let rwnd: u32 = kani::any();
-    kani::assume(rwnd >= 1 && rwnd <= 4);
-    let port: u16 = kani::any();
-    let peer: u32 = kani::any();
+    // concrete, pairwise different values: the open future keeps them across its await points, and
+    // symbolic values inside a suspended state machine stop CBMC from folding it (DESIGN.md 9.7)
+    let rwnd: u32 = 3;
+    let port: u16 = PORT;
+    let peer: u32 = PEER;
     let (mux, mut td) = mux_world(Options::new().rwnd(rwnd).default_rwnd_threshold(1), [A, C, C, C]);
     let mut fut = Leaky::new(mux.new_stream_channel(b"hi", port));
     let p1 = fut.poll();
@@ -193,13 +194,7 @@ pub(crate) fn be16(b: &[u8], i: usize) -> u16 {
 
 /// every attempt rejected: after exactly `max_flow_id_retries` Connects with pairwise fresh ids the
 /// call fails with FlowIdRejected; no slot is left behind
-#[cfg_attr(kani, kani::proof)]
-#[cfg_attr(kani, kani::stub(catch_unwind, call_through))]
-#[cfg_attr(kani, kani::unwind(7))]
-#[cfg_attr(verif_replay, test)]
-fn m_open_rejected_gives_up() {
-    let two: bool = kani::any();
-    let retries: usize = if two { 2 } else { 1 };
+fn m_open_rejected_gives_up_with(retries: usize) {
     let (mux, mut td) = mux_world(Options::new().max_flow_id_retries(retries), [A, C, 0x55, 0x66]);
     let mut fut = Leaky::new(mux.new_stream_channel(b"", 0));
     let mut k = 0;
@@ -223,6 +218,24 @@ fn m_open_rejected_gives_up() {
     core::mem::forget(p);
     assert!(out_empty(&mut td.tx_msg_rx) && tlen(&td) == 0, "C07.retry.no_extra: no further Connect, nothing left in the table");
     core::mem::forget((fut, td));
+}
+
+/// every attempt rejected, max_flow_id_retries = 1: one Connect, then FlowIdRejected
+#[cfg_attr(kani, kani::proof)]
+#[cfg_attr(kani, kani::stub(catch_unwind, call_through))]
+#[cfg_attr(kani, kani::unwind(7))]
+#[cfg_attr(verif_replay, test)]
+fn m_open_rejected_gives_up_r1() {
+    m_open_rejected_gives_up_with(1)
+}
+
+/// every attempt rejected, max_flow_id_retries = 2: two Connects with fresh ids, then FlowIdRejected
+#[cfg_attr(kani, kani::proof)]
+#[cfg_attr(kani, kani::stub(catch_unwind, call_through))]
+#[cfg_attr(kani, kani::unwind(7))]
+#[cfg_attr(verif_replay, test)]
+fn m_open_rejected_gives_up_r2() {
+    m_open_rejected_gives_up_with(2)
 }
 
 /// rejected once, then accepted: the stream is the one of the SECOND id
@@ -298,14 +311,8 @@ fn m_open_pending_across_teardown() {
 
 // ======================================================================== request_bind
 /// one Bind frame with (fresh id, type, host, port); resolves true on Finish
-#[cfg_attr(kani, kani::proof)]
-#[cfg_attr(kani, kani::stub(catch_unwind, call_through))]
-#[cfg_attr(kani, kani::unwind(7))]
-#[cfg_attr(verif_replay, test)]
-fn m_request_bind_frame_and_answer() {
-    let port: u16 = kani::any();
-    let dgram: bool = kani::any();
-    let accept: bool = kani::any();
+fn m_request_bind_frame_and_answer_with(dgram: bool, accept: bool) {
+    let port: u16 = PORT;
     let bt = if dgram { BindType::Datagram } else { BindType::Stream };
     let (mux, mut td) = mux_world(Options::new(), [0, A, C, C]);
     let mut fut = Leaky::new(mux.request_bind(b"ho", port, bt));
@@ -330,6 +337,24 @@ fn m_request_bind_frame_and_answer() {
     core::mem::forget(p);
     assert!(tlen(&td) == 0 && out_empty(&mut td.tx_msg_rx), "C15.request.freed: the id is free afterwards, nothing else is sent");
     core::mem::forget((fut, td));
+}
+
+/// a stream bind request that the peer accepts (Finish): one Bind frame with the fields, resolves true
+#[cfg_attr(kani, kani::proof)]
+#[cfg_attr(kani, kani::stub(catch_unwind, call_through))]
+#[cfg_attr(kani, kani::unwind(7))]
+#[cfg_attr(verif_replay, test)]
+fn m_request_bind_stream_accepted() {
+    m_request_bind_frame_and_answer_with(false, true)
+}
+
+/// a datagram bind request that the peer rejects (Reset): resolves false
+#[cfg_attr(kani, kani::proof)]
+#[cfg_attr(kani, kani::stub(catch_unwind, call_through))]
+#[cfg_attr(kani, kani::unwind(7))]
+#[cfg_attr(verif_replay, test)]
+fn m_request_bind_datagram_rejected() {
+    m_request_bind_frame_and_answer_with(true, false)
 }
 
 /// two concurrent requests are answered independently, in the opposite order
@@ -426,12 +451,7 @@ static HOST255: [u8; 255] = [b'a'; 255];
 static HOST256: [u8; 256] = [b'a'; 256];
 
 /// the 255/256 boundary of the host length gate
-#[cfg_attr(kani, kani::proof)]
-#[cfg_attr(kani, kani::stub(catch_unwind, call_through))]
-#[cfg_attr(kani, kani::unwind(7))]
-#[cfg_attr(verif_replay, test)]
-fn m_send_datagram_host_gate() {
-    let long: bool = kani::any();
+fn m_send_datagram_host_gate_with(long: bool) {
     let id: u32 = kani::any();
     let (mux, mut td) = mux_world(Options::new(), [A, C, 0x55, 0x66]);
     let host = if long { Bytes::from_static(&HOST256) } else { Bytes::from_static(&HOST255) };
@@ -450,6 +470,24 @@ fn m_send_datagram_host_gate() {
         core::mem::forget(b);
     }
     core::mem::forget(td);
+}
+
+/// a target host of exactly 255 bytes is accepted and framed
+#[cfg_attr(kani, kani::proof)]
+#[cfg_attr(kani, kani::stub(catch_unwind, call_through))]
+#[cfg_attr(kani, kani::unwind(7))]
+#[cfg_attr(verif_replay, test)]
+fn m_send_datagram_host_255_accepted() {
+    m_send_datagram_host_gate_with(false)
+}
+
+/// a target host of 256 bytes is refused with DatagramHostTooLong and has no other effect
+#[cfg_attr(kani, kani::proof)]
+#[cfg_attr(kani, kani::stub(catch_unwind, call_through))]
+#[cfg_attr(kani, kani::unwind(7))]
+#[cfg_attr(verif_replay, test)]
+fn m_send_datagram_host_256_refused() {
+    m_send_datagram_host_gate_with(true)
 }
 
 /// connection ended: Closed
@@ -504,17 +542,12 @@ fn m_drop_multiplexor_signals_task() {
 // ======================================================================== process_dropped_flows_task
 /// dropped stream ids are closed one by one (Reset unless finished); id 0 ends the loop so that the
 /// task goes to the flushing wind-down
-#[cfg_attr(kani, kani::proof)]
-#[cfg_attr(kani, kani::stub(catch_unwind, call_through))]
-#[cfg_attr(kani, kani::unwind(7))]
-#[cfg_attr(verif_replay, test)]
-fn m_dropped_flows_task() {
+fn m_dropped_flows_task_with(with_zero: bool) {
     let mut w = world(4, 2, false, 1);
     let mut sb = bystander_established(&w);
     let (mut sa, da) = w.task.new_stream_shared(A, 3, Bytes::new(), 0);
     w.task.flows.write().insert(A, FlowSlot::Established(da));
     w.task.dropped_flows_tx.send(A).ok();
-    let with_zero: bool = kani::any();
     if with_zero {
         w.task.dropped_flows_tx.send(0).ok();
     }
@@ -530,6 +563,24 @@ fn m_dropped_flows_task() {
     assert!(out_empty(&mut tx_msg_rx), "C06.dropped.single");
     assert!(!task.flows.read().contains_key(&A) && task.flows.read().len() == 1, "C06.dropped.freed: its slot is freed, the other flow stays");
     core::mem::forget((sa, sb, task, tx_msg_rx, dropped_rx, con_rx, dgram_rx, bnd_rx));
+}
+
+/// a dropped stream id: its flow is closed with one Reset, the loop keeps waiting
+#[cfg_attr(kani, kani::proof)]
+#[cfg_attr(kani, kani::stub(catch_unwind, call_through))]
+#[cfg_attr(kani, kani::unwind(7))]
+#[cfg_attr(verif_replay, test)]
+fn m_dropped_flows_task_stream() {
+    m_dropped_flows_task_with(false)
+}
+
+/// a dropped stream id followed by the handle-dropped signal 0: the loop ends (flushing wind-down)
+#[cfg_attr(kani, kani::proof)]
+#[cfg_attr(kani, kani::stub(catch_unwind, call_through))]
+#[cfg_attr(kani, kani::unwind(7))]
+#[cfg_attr(verif_replay, test)]
+fn m_dropped_flows_task_handle() {
+    m_dropped_flows_task_with(true)
 }
 
 // ======================================================================== a recording WebSocket
@@ -666,13 +717,7 @@ fn m_outbound_fifo() {
 /// readers get what was delivered and then end-of-stream, no Reset is emitted by the teardown, and
 /// -- if and only if the local handle was dropped -- everything queued before is still handed to the
 /// sink, in order, before the sink is closed.
-#[cfg_attr(kani, kani::proof)]
-#[cfg_attr(kani, kani::stub(catch_unwind, call_through))]
-#[cfg_attr(kani, kani::unwind(8))]
-#[cfg_attr(verif_replay, test)]
-fn m_wind_down() {
-    let drain: bool = kani::any();
-    let late: bool = kani::any();
+fn m_wind_down_with(drain: bool, late: bool) {
     let mut ws = RecWs::new();
     if late {
         // a Push for A that was already in the source when the sink was closed
@@ -722,6 +767,33 @@ fn m_wind_down() {
     core::mem::forget((sa, crx, brx, task, con_rx, dgram_rx));
 }
 
+/// teardown after the local handle was dropped: queued frames are flushed in order before the close
+#[cfg_attr(kani, kani::proof)]
+#[cfg_attr(kani, kani::stub(catch_unwind, call_through))]
+#[cfg_attr(kani, kani::unwind(8))]
+#[cfg_attr(verif_replay, test)]
+fn m_wind_down_local_drop() {
+    m_wind_down_with(true, false)
+}
+
+/// teardown after the peer ended the connection: nothing more is sent
+#[cfg_attr(kani, kani::proof)]
+#[cfg_attr(kani, kani::stub(catch_unwind, call_through))]
+#[cfg_attr(kani, kani::unwind(8))]
+#[cfg_attr(verif_replay, test)]
+fn m_wind_down_peer_ended() {
+    m_wind_down_with(false, false)
+}
+
+/// as the local-drop case with one Push still in the source when the sink was closed: it is still delivered
+#[cfg_attr(kani, kani::proof)]
+#[cfg_attr(kani, kani::stub(catch_unwind, call_through))]
+#[cfg_attr(kani, kani::unwind(8))]
+#[cfg_attr(verif_replay, test)]
+fn m_wind_down_late_data() {
+    m_wind_down_with(true, true)
+}
+
 /// a writer blocked on zero credit when the connection (or the flow) ends: once writes are forbidden
 /// the next poll fails with BrokenPipe -- it does not keep waiting for credit that will never come
 #[cfg_attr(kani, kani::proof)]
@@ -756,7 +828,7 @@ fn m_stale_handle_drop_after_reuse() {
     w.task.flows.write().insert(A, FlowSlot::Established(da));
     let r = poll_once(w.task.process_frame(Frame::new_reset(A), false));
     core::mem::forget(r);
-    let r = poll_once(w.task.process_frame(connect_frame(b"h", 1, A, 5), false));
+    let r = connect_direct(&w, b"h", 1, A, 5);
     core::mem::forget(r);
     let World { task, mut tx_msg_rx, mut dropped_rx, mut con_rx, dgram_rx, bnd_rx } = w;
     let new = con_rx.try_recv();
